@@ -7,7 +7,7 @@ _C19_IGNORE = _os.path.join(_os.path.dirname(_os.path.abspath(__file__)), 'engin
 # std:: / rapidcheck types compatible with their prebuilt libraries
 target('c19_sdu', 'engines/comp/c19_sdu.cpp', inc=_C19_NRF_INC,
        cxxflags=['-fsanitize-address-field-padding=1', '-fsanitize-ignorelist=' + _C19_IGNORE],
-       quick=dict(cases=80000, size=120), thorough=dict(cases=2000000, size=200))
+       quick=dict(cases=200000, size=120), thorough=dict(cases=2000000, size=200))
 target('c19_sdu_fuzz', 'engines/comp/c19_sdu_fuzz.cpp', kind='fuzz',
        quick=dict(runs=40000, max_seconds=60, max_len=600), thorough=dict(runs=5000000, max_seconds=1200, max_len=600))
 prop('C19', ['c19_sdu', 'c19_sdu_fuzz'], 'comp',
